@@ -46,12 +46,17 @@ func (c Cache) Get(fn string, args []object.Object) (object.Object, []byte, bool
 		key.Args[i] = v
 	}
 	result, ok := c[key]
-	if ok {
-		verifCacheHit()
+	if !ok {
+		return nil, nil, false
 	}
 	// (a copy: large arrays and maps are updated in place by index assignment, the receiver must not share
 	// its storage with what is remembered here.)
-	return object.DeepCopy(result.Result), result.Output, ok
+	res, small := object.DeepCopy(result.Result)
+	if !small {
+		return nil, nil, false
+	}
+	verifCacheHit()
+	return res, result.Output, true
 }
 
 func (c Cache) Set(fn string, args []object.Object, result object.Object, output []byte) {
@@ -69,5 +74,7 @@ func (c Cache) Set(fn string, args []object.Object, result object.Object, output
 		}
 		key.Args[i] = v
 	}
-	c[key] = CacheValue{Result: object.DeepCopy(result), Output: output} // same: the caller keeps the original.
+	if cp, small := object.DeepCopy(result); small { // same: the caller keeps the original. (too big to copy: not remembered.)
+		c[key] = CacheValue{Result: cp, Output: output}
+	}
 }
